@@ -235,4 +235,18 @@ example : gtr (.json (.str "Infinity")) (.json (.int 9223372036854775807)) = tru
     lss (.json (.str "-inf")) (.json (.int (-9223372036854775808))) = true ∧
     geq (.json (.str "Infinit")) (.json (.int 1)) = false := by decide
 
+/-- **An infinity orders above every number**: for every integral JSON number below 10^400 (every float64 is),
+    `"Infinity" > x` holds and `"Infinity" <= x` does not - whatever the size of `x`. -/
+theorem c12_inf_above_integral (x : Json) (n : Int) (hx : integral x = some n) (hn : n < (10 : Int) ^ 400) :
+    gtr (.json (.str "Infinity")) (.json x) = true ∧ leq (.json (.str "Infinity")) (.json x) = false := by
+  have hinf : floatOfJson (.str "Infinity") = ⟨(10 : Int) ^ 400, 0⟩ := by decide
+  have hnan : nanJson (.str "Infinity") = false := by decide
+  have fx := floatOfJson_integral hx
+  constructor
+  · unfold gtr ordOp
+    cases x <;> simp_all [integral, float64Operand, nanVal, nanJson, Dec.lt]
+  · unfold leq ordOp
+    cases x <;> simp_all [integral, float64Operand, nanVal, nanJson, Dec.le]
+    all_goals omega
+
 end KsVerif.Proofs.C12
